@@ -6,6 +6,7 @@ import (
 	"time"
 
 	"github.com/KevoDB/kevo/pkg/config"
+	"github.com/KevoDB/kevo/pkg/verifhook"
 )
 
 // CompactionCoordinatorOptions holds configuration options for the coordinator
@@ -237,6 +238,7 @@ func (c *DefaultCompactionCoordinator) runCompactionCycle() error {
 	// Perform compaction
 	outputFiles, err := c.executor.CompactFiles(task)
 
+	verifhook.At("compaction.cycle.after_compact")
 	// Unmark files as pending
 	for _, files := range task.InputFiles {
 		for _, file := range files {
@@ -264,6 +266,7 @@ func (c *DefaultCompactionCoordinator) runCompactionCycle() error {
 		}
 	}
 
+	verifhook.At("compaction.cycle.before_cleanup")
 	// Try to clean up the files immediately
 	return c.fileTracker.CleanupObsoleteFiles()
 }
